@@ -1,5 +1,7 @@
 ------------------------------ MODULE RegistryMC ------------------------------
 EXTENDS Registry
+H_true == {TRUE}
+H_both == {TRUE, FALSE}
 T_one == {1}
 T_two == {1, 2}
 Ops_all == {"create", "die", "restart", "ac", "auto"}
